@@ -653,6 +653,20 @@ class PathEval:
         """[(variant, count term, payload {field: operand}, block)] in path order; raises Unknown."""
         b = self.b
         out = []
+        # every VectorDiff built on this path must be accounted for by a push / group event; a diff that is built but reaches the
+        # result some other way (`Some(diff)` .. `.into_iter().collect()`) means the output idiom is not the one this analysis reads
+        built = set()
+        for blk in self.path:
+            for i_, s_ in enumerate(b.blocks[blk]["stmts"]):
+                if s_["k"] == "assign" and s_["rv"]["k"] == "agg" and (s_["rv"].get("adt") or "").endswith("::VectorDiff"):
+                    built.add((blk, i_))
+        used = set()
+        for blk in self.path:
+            if blk in evs:
+                for agg in find_all(evs[blk][2], lambda y: y[0] == "agg" and y[1] == "adt" and isinstance(y[2], str) and y[2].endswith("::VectorDiff")):
+                    used.add(agg[6])
+        if built - used:
+            raise Unknown("a diff is built on this path but not pushed onto the result buffer (output idiom not recognised)")
         for i, blk in enumerate(self.path):
             if blk not in evs:
                 t_ = b.term(blk)
